@@ -318,6 +318,29 @@ def symlink_include_cases(rng, n):
     return out
 
 
+def multi_dir_cases(rng, n):
+    """files included from several different directories (the listing groups lines by file), and an include directory that
+    is supplied twice, once through a symbolic link: same outputs for every hash seed and every order of the -I options"""
+    from .sysgen import num
+    out = []
+    for k in range(n):
+        dirs = rng.sample(['lib_core', 'lib_vendor', 'inc', 'zlib', 'a_inc', 'drivers'], 3)
+        base = dict(addr_bits=16, endian='big', origin=0, page=1, terminator=0, embedded=False, zones=[], consts=[], data=[], syms=[], cli=[])
+        files = [{'name': 'main.asm', 'dir': 'src', 'stmts': [['data', 1, [num(1)]], ['include', 1, 'near.asm'], ['include', 2, 'f2.asm'],
+                                                                 ['include', 3, 'f3.asm'], ['include', 4, 'f4.asm'], ['data', 1, [num(2)]]]},
+                 {'name': 'near.asm', 'dir': 'src', 'stmts': [['data', 1, [num(0x10)]]]}]
+        for j, d in enumerate(dirs):
+            files.append({'name': f'f{j + 2}.asm', 'dir': d, 'stmts': [['data', 1, [num(0x20 + j)]], ['instr', 'nop', []]]})
+        c = {'cfg': base, 'files': files, 'include_dirs': list(dirs), 'extra_files': [], 'opts': {'start': 0, 'end': None, 'fill': 0},
+             'det_seed': rng.randrange(1 << 30), 'det_runs': 10, 'det_fmt': 'listing', 'isa': {'macros': {}}}
+        if k % 2 == 1:
+            # the first library directory is also reachable as <it>_cur (a symbolic link), and both spellings are passed
+            c['symlinks'] = [{'dir': '.', 'name': dirs[0] + '_cur', 'target': dirs[0]}]
+            c['include_dirs'] = [dirs[0], dirs[0] + '_cur'] + dirs[1:]
+        out.append(c)
+    return out
+
+
 def isa_determinism_oracle(n_quick=25, n_thorough=400):
     def gen(rng, tier):
         from . import sysisa
@@ -329,7 +352,7 @@ def isa_determinism_oracle(n_quick=25, n_thorough=400):
             out.append(c)
         q = tier == 'quick'
         return (out + dotted_cases(rng, 12 if q else 150) + mnemonic_family_cases(rng, 12 if q else 150)
-                + symlink_include_cases(rng, 4 if q else 40))
+                + symlink_include_cases(rng, 4 if q else 40) + multi_dir_cases(rng, 6 if q else 60))
     return Oracle(name='determinism_isa', gen=gen, check=_isa_determinism_check, nontrivial=lambda c: True,
                   classify=lambda c: 'isa', timeout=600)
 
@@ -528,3 +551,39 @@ def slow_operand_oracle(n_quick=120, n_thorough=1500):
         return out
     return Oracle(name='slow_operands', gen=gen, check=_failclosed_check, nontrivial=lambda c: True,
                   classify=lambda c: 'macros' if c['isa']['macros'] else 'instrs', timeout=300)
+
+
+# ------------------------------------------------------------------------------------------------ output modes (C04, C14)
+def _modes_check(case):
+    """whether a program is accepted must not depend on which outputs are asked for: binary image, no binary image
+    (--no-binary), with or without a pretty print in any format"""
+    td = tempfile.mkdtemp(prefix='vf_modes_')
+    try:
+        isa, paths, incdirs = sysgen.write_case(case, td)
+        seen = {}
+        for name, extra in (('binary', []), ('binary+listing', ['-p', '-t', 'listing', '--pretty-print-output', os.path.join(td, 'o1.txt')]),
+                            ('no-binary', ['-n']),
+                            ('no-binary+' + case.get('pp', 'listing'), ['-n', '-p', '-t', case.get('pp', 'listing'), '--pretty-print-output', os.path.join(td, 'o2.txt')])):
+            out = os.path.join(td, 'out_' + name.replace('+', '_') + '.bin')
+            p = subprocess.run(sysgen.cli_args(case, isa, paths, incdirs, out, extra), capture_output=True, text=True, timeout=60,
+                               env=C.impl_env(), cwd=td)
+            seen[name] = 'ok' if p.returncode == 0 else 'rejected'
+            if name.startswith('no-binary') and os.path.exists(out):
+                return f'{name}: an image file was written although none was asked for'
+        if len(set(seen.values())) != 1:
+            return f'accepted or rejected depending on the requested outputs: {seen}'
+        return None
+    finally:
+        shutil.rmtree(td, ignore_errors=True)
+
+
+def output_modes_oracle(gen_case, n_quick=60, n_thorough=800, name='output_modes'):
+    def gen(rng, tier):
+        out = []
+        for _ in range(n_quick if tier == 'quick' else n_thorough):
+            c = gen_case(rng, tier)
+            c['pp'] = rng.choice(FORMATS)
+            out.append(c)
+        return out
+    return Oracle(name=name, gen=gen, check=_modes_check, nontrivial=lambda c: True,
+                  classify=lambda c: c.get('fault') or 'program', timeout=300)
